@@ -83,6 +83,19 @@ CROSS_REALM = [
     ("var shared = function f(){ return [] };", "[shared instanceof Function, shared() instanceof Array, Array.isArray(shared()), Object.getPrototypeOf(shared) === Function.prototype, typeof shared]", "[false,false,true,false,\"function\"]"),
     ("var shared = new TypeError('x');", "[shared instanceof TypeError, shared instanceof Error, Object.getPrototypeOf(shared) === TypeError.prototype, Object.prototype.toString.call(shared)]", "[false,false,false,\"[object Error]\"]"),
     ("var shared = function(){ try { null.x } catch (e) { return e } };", "(function(){ var e = shared(); return [e instanceof TypeError, Object.getPrototypeOf(e) === TypeError.prototype, e.constructor === TypeError, e.constructor.name] })()", "[false,false,false,\"TypeError\"]"),
+    # errors thrown by a built-in belong to the realm of the built-in, whoever calls it
+    ("var shared = {parse: JSON.parse, keys: Object.keys, defprop: Object.defineProperty, symval: Symbol.prototype.valueOf, forEach: Array.prototype.forEach, "
+     "toFixed: Number.prototype.toFixed, from: Array.from, TE: TypeError, SE: SyntaxError, RE: RangeError};",
+     "(function(){ function probe(f, own, other){ try { f(); return 'no throw' } catch (e) { var p = Object.getPrototypeOf(e); return [p === other.prototype, p === own.prototype, e instanceof own] } } "
+     "return [probe(function(){ shared.parse('{') }, SyntaxError, shared.SE), probe(function(){ shared.keys(undefined) }, TypeError, shared.TE), "
+     "probe(function(){ shared.defprop(1, 'x', {}) }, TypeError, shared.TE), probe(function(){ Reflect.apply(shared.symval, {}, []) }, TypeError, shared.TE), "
+     "probe(function(){ shared.forEach.call(null) }, TypeError, shared.TE), probe(function(){ shared.toFixed.call(1, 1000) }, RangeError, shared.RE), "
+     "probe(function(){ shared.from(1, 1) }, TypeError, shared.TE), probe(function(){ new shared.TE.constructor('(') }, SyntaxError, shared.SE)] })()",
+     "[[true,false,false],[true,false,false],[true,false,false],[true,false,false],[true,false,false],[true,false,false],[true,false,false],[true,false,false]]"),
+    ("var shared = {parse: JSON.parse, keys: Object.keys};",
+     "(function(){ TypeError.prototype.planted = 'here'; SyntaxError.prototype.planted = 'here'; var out = []; try { shared.keys(null) } catch (e) { out.push(e.planted) } "
+     "try { shared.parse('[') } catch (e) { out.push(e.planted) } try { null.x } catch (e) { out.push(e.planted) } return out })()",
+     "[undefined,undefined,\"here\"]"),
     ("var shared = new Map([[1, 2]]);", "[shared instanceof Map, shared.get(1), Map.prototype.get.call(shared, 1), Object.getPrototypeOf(shared) === Map.prototype]", "[false,2,2,false]"),
     ("var shared = Symbol.for('x');", "[shared === Symbol.for('x'), typeof shared]", "[true,\"symbol\"]"),
     ("var shared = Symbol.iterator;", "[shared === Symbol.iterator]", "[true]"),
